@@ -68,6 +68,9 @@ def render_ini(c, r, section="bumpver", quote="all"):
             return "'%s'" % s
         return s
     lines = ["[%s]" % section, "current_version = %s" % qv(c["current_version"], "current_version"), "version_pattern = %s" % qv(c["version_pattern"], "version_pattern")]
+    if quote == "colon":
+        # the other key/value delimiter of the ini syntax
+        lines = ["[%s]" % section, "current_version: %s" % c["current_version"], "version_pattern: %s" % c["version_pattern"]]
     for k in ("commit_message", "tag_message", "tag_scope", "pre_commit_hook", "post_commit_hook"):
         if c[k] is not None:
             lines.append("%s = %s" % (k, qv(c[k], k)))
@@ -118,7 +121,7 @@ def _render_toml(c, section="bumpver"):
 
 
 SIBLINGS = [("setup.cfg", "ini", "bumpver", "all"), ("setup.cfg", "ini", "bumpver", "none"), ("setup.cfg", "ini", "bumpver", "mixed"), ("setup.cfg", "ini", "bumpver", "single"),
-            ("setup.cfg", "ini", "pycalver", "all"), ("pyproject.toml", "toml", "tool.bumpver", None), ("bumpver.toml", "toml", "bumpver", None),
+            ("setup.cfg", "ini", "pycalver", "all"), ("setup.cfg", "ini", "bumpver", "colon"), ("pyproject.toml", "toml", "tool.bumpver", None), ("bumpver.toml", "toml", "bumpver", None),
             (".bumpver.toml", "toml", "bumpver", None), ("pycalver.toml", "toml", "pycalver", None),
             # the same TOML text formatted by hand
             ("pyproject.toml", "toml", "tool.bumpver", "indented"), ("bumpver.toml", "toml", "bumpver", "header-comment")]
@@ -159,7 +162,7 @@ def run(rep, tier, seed, model_ok=True, effort=1):
     r = common.rng(seed, "c18")
     n = (40 if tier == "quick" else 800) * effort
     rep.rule = ("abstract configurations (v2 and legacy patterns, optional keys present/missing, all tag scopes, hooks, every boolean spelling, messages and patterns containing ' #' and ' ;', sections of other tools before/after, 0..6 files x 1..4 "
-                "patterns) written as 11 siblings (two of them TOML formatted by hand: indented keys, comments after the table headers): setup.cfg [bumpver] with double-quoted / unquoted / mixed / single-quoted strings, setup.cfg [pycalver], pyproject.toml, bumpver.toml, "
+                "patterns) written as 12 siblings (two of them TOML formatted by hand: indented keys, comments after the table headers): setup.cfg [bumpver] with double-quoted / unquoted / mixed / single-quoted strings, setup.cfg [pycalver], pyproject.toml, bumpver.toml, "
                 ".bumpver.toml, pycalver.toml; the parsed Config of all siblings must be equal (own current_version line aside, which must be found by its "
                 "own pattern), `update --dry` must announce the same version; raw library values fed to the Coq model of _parse_config; non-trivial = distinct "
                 "configuration accepted by at least one sibling")
